@@ -1,4 +1,8 @@
 //! Shared plumbing for the correspondence harness: the line protocol, hex, panic capture.
+/// Baseline-JPEG writer (oracle) + minimal lossless JPEG->JPEG XL transcoder (VarDCT, DCT8, jbrd box).
+/// Written by a mutation sub-agent for its demonstrations of C17 (seeded/c17-*/demo), adopted here as the
+/// generator of the end-to-end JPEG reconstruction run.
+pub mod synth;
 use std::io::{BufRead, Write};
 
 pub fn hex(bytes: &[u8]) -> String {
